@@ -77,7 +77,8 @@ func (e *Engine) FindSubmatchAt(haystack []byte, at int) *MatchWithCaptures {
 func (e *Engine) findSubmatchAtWithState(haystack []byte, at int, state *SearchState) *MatchWithCaptures {
 	// For position 0, try OnePass DFA if available (10-20x faster for anchored patterns).
 	// OnePass handles captures natively — no need for two-phase search.
-	if at == 0 && e.onepass != nil && state.onepassCache != nil {
+	// (The one-pass DFA computes the leftmost-FIRST match: not in longest mode.)
+	if at == 0 && !e.longest && e.onepass != nil && state.onepassCache != nil {
 		atomic.AddUint64(&e.stats.OnePassSearches, 1)
 		slots := e.onepass.Search(haystack, state.onepassCache)
 		if slots != nil {
